@@ -287,7 +287,7 @@ class World:
             with c:
                 entered = True
                 self.depth += 1
-                self.cur_calib = (op.get("momentum", 0.9), op.get("streamline", True))
+                self.cur_calib = (c.momentum, c.streamline)  # a reused instance keeps its own configuration
                 try:
                     self.exec_ops(op.get("body", []), p)
                 finally:
